@@ -39,7 +39,14 @@ def rule_r1(chk, db):
         t = b.blocks[bi]["term"]
         if t["k"] == "switch":
             p = flow.op_place(t["discr"])
-            if p is not None and not p["proj"] and b.locals[p["l"]] == "u8":
+            is_u8 = p is not None and ((not p["proj"] and b.locals[p["l"]] == "u8") or
+                                       (any(isinstance(e, dict) and ("idx" in e or "cidx" in e) for e in p["proj"]) and "[u8]" in b.locals[p["l"]]))
+            if p is not None and not p["proj"] and not is_u8:
+                df = flow.single_def(b, p["l"])
+                if df and df["kind"] == "assign" and df["rv"]["k"] == "use":
+                    q = flow.op_place(df["rv"]["ops"][0])
+                    is_u8 = q is not None and "[u8]" in b.locals[q["l"]]
+            if is_u8:
                 n += 1
                 for v, _ in t["targets"]:
                     consts.add(int(v))
@@ -307,7 +314,7 @@ def rule_r6(chk, db):
             chk.verdict(not bad, "R6", "%s%s" % (short(name), ":" + where if where else ""), "%s:%d" % (adt["span"]["file"], adt["span"]["line"]),
                         "serde attribute(s) %s on %s%s change which documents are accepted or emitted (allowed: rename, rename_all, flatten, "
                         "skip_serializing_if = \"Option::is_none\")" % (bad, short(name), " " + where if where else ""))
-    chk.floor("R6", n, 8, "serde attributes inspected in the policy model")
+    chk.floor("R6", n, 6, "serde attributes inspected in the policy model")
     # derived (de)serialisers only, except the three hand-written pairs
     hand = set()
     for i in db.impls:
